@@ -25,6 +25,8 @@ def one(d):
     from pydlsa.cli import evaluate
     meta = json.load(open(os.path.join(d, 'meta.json')))
     prop = meta['breaks_property']
+    if meta.get('obsolete'):
+        return meta['id'], 'n/a', [], 'obsolete: ' + meta['obsolete'][:80]
 
     def read(rel):
         with open(os.path.join(ROOT, rel), encoding='utf-8') as fh:
